@@ -1,10 +1,18 @@
 (* Properties_C15.v -- C15: members are independent of how other members were
    skipped, read or checked; the end is absorbing; two readers do not interact.
-   Statements about the reader model (Reader.v).  The stream/basic-reader
-   independence theorems are in P_ReaderIndep.v as they are completed; until
-   then that part is decided by the metamorphic oracle of the check on the C. *)
+   Statements about the reader model (Reader.v); proofs in P_StreamEquiv.v,
+   P_BasicReaderIndep.v, P_ReaderIndep.v, P_ReaderIndepFull.v.
+     stream_equiv / breader_equiv / reader_equiv forget what legitimately differs
+     between histories (callback counters, how much of the remaining data sits in
+     the lead-in buffer) and keep the kind and the remaining bytes;
+     orel R x y: x and y are the same outcome (both Ok with R-related values, the
+     same Fault site, or both out of fuel).
+   Not proved: the global count "each extracted directory is re-presented exactly
+   once" over arbitrary histories (its step facts and the drain at the end are),
+   and the two-history form for extract operations; both are decided by the
+   correspondence and the oracles of the check. *)
 From Lhasa Require Import Base DecBase Loop Generated InputStream Header BasicReader AnyDecoder Decoder
-  MacBinary Fs FsRun Reader.
+  MacBinary Fs FsRun Reader P_StreamEquiv P_BasicReaderIndep P_ReaderIndep P_ReaderIndepFull.
 Local Open Scope N_scope.
 
 Section C15.
@@ -45,6 +53,94 @@ Section C15.
      the check (interleaved, and on two threads under ThreadSanitizer). *)
 End C15.
 
+(* ---- independence of what comes next from what was done with the current member ---- *)
+
+(* stream: reading k bytes and then skipping n leaves an equivalent stream to skipping
+   k+n at once, for all four stream kinds (data present; the truncated case --
+   read_then_skip_truncated -- ends the archive in both histories) *)
+Theorem read_then_skip_is_skip : forall (st : istream) (k n : N),
+  is_state st = IS_READING -> is_leadin st = [] ->
+  k + n <= nlen (so_data (is_src st)) -> nlen (so_data (is_src st)) < 1099511627776 ->
+  exists st1 sa sb,
+    lha_input_stream_read st k = Ok (Some (firstn_N k (so_data (is_src st))), st1) /\
+    lha_input_stream_skip st1 n = Ok (true, sa) /\
+    lha_input_stream_skip st (k + n) = Ok (true, sb) /\
+    stream_equiv sa sb /\ remaining sa = skipn_N (k + n) (so_data (is_src st)).
+Proof. exact read_then_skip_equiv_present. Qed.
+
+(* the header parser depends only on the remaining bytes *)
+Theorem header_read_respects_equiv : forall mktime (a b : istream),
+  stream_equiv a b -> orel rel_st (lha_file_header_read mktime a) (lha_file_header_read mktime b).
+Proof. exact lha_file_header_read_equiv. Qed.
+
+(* basic reader: after ANY sequence of reads of the current member's compressed data
+   (none, partial, all, more than all; truncated members included) the next header and
+   the reader are the same as if nothing had been read *)
+Theorem next_header_independent_of_reads : forall mktime (r : breader) (sizes : list N),
+  br_wf r ->
+  orel nf_rel (lha_basic_reader_next_file mktime (read_many r sizes)) (lha_basic_reader_next_file mktime r).
+Proof. exact next_file_after_reads. Qed.
+
+(* reader: after any number of reads (any sizes) and/or checks of the current member,
+   through any of the fourteen decoders and the MacBinary pass-through, next_file returns
+   the same header and an equivalent reader as if the caller had done nothing, and the
+   filesystem is untouched.  (Unconditional: the decoders reach the basic reader only
+   through the callback -- parametricity, P_AnyParam.v.) *)
+Theorem next_entry_independent_of_decoding : forall mktime junk r f l xs r' f',
+  rd_type r = CT_NORMAL -> br_wf (rd_br r) ->
+  forallb is_decode_op l = true ->
+  P_ReaderIndep.run_ops mktime junk (r, f) l = Ok (xs, (r', f')) ->
+  f' = f /\ orel rnf_rel (lha_reader_next_file mktime r') (lha_reader_next_file mktime r).
+Proof. exact next_file_after_decode_ops. Qed.
+
+(* ---- the end ---- *)
+Theorem end_is_absorbing : forall mktime junk (r0 r : reader),
+  lha_reader_next_file mktime r0 = Ok (None, r) ->
+  lha_reader_next_file mktime r = Ok (None, r) /\
+  (forall n, lha_reader_read junk r n = Ok ([], [], r)) /\
+  (forall mon, lha_reader_check junk r mon = Ok (false, [], r)) /\
+  (forall f fn mon, lha_reader_extract junk r f fn mon = Ok (false, [], r, f)) /\
+  lha_reader_current_is_fake r = false.
+Proof. exact P_ReaderIndep.end_is_absorbing. Qed.
+
+(* ---- re-presented entries ---- *)
+
+(* never under the plain policy *)
+Theorem plain_policy_never_represents : forall mktime junk (st : istream) (f : fs) l xs r' f',
+  P_ReaderIndep.run_ops mktime junk (lha_reader_set_dir_policy (lha_reader_new st) DIR_PLAIN, f) l = Ok (xs, (r', f')) ->
+  rd_dir_stack r' = [] /\ rd_type r' <> CT_FAKE_DIR /\ rd_policy r' = DIR_PLAIN.
+Proof. exact plain_policy_no_fake_dirs. Qed.
+
+(* the deferred links stay sorted longest path first after every history *)
+Theorem deferred_links_longest_first : forall mktime junk (st : istream) (f : fs) l xs r' f',
+  P_ReaderIndep.run_ops mktime junk (lha_reader_new st, f) l = Ok (xs, (r', f')) -> desc_len (rd_deferred r').
+Proof. exact deferred_list_sorted. Qed.
+
+(* at the end of the archive: the directories still on the stack, then the deferred
+   links in list order, then None -- each exactly once *)
+Theorem end_of_archive_drain : forall mktime (stk : list header) (r : reader),
+  br_at_end (rd_br r) -> rd_type r <> CT_EOF -> rd_dir_stack r = stk ->
+  exists r', nexts mktime (length stk + (length (rd_deferred r) + 1)) r =
+    Ok (map (fun h => (Some h, CT_FAKE_DIR)) stk ++ map (fun h => (Some h, CT_DEFERRED_SYMLINK)) (rd_deferred r)
+        ++ [(None, CT_EOF)], r').
+Proof. exact drain. Qed.
+
+(* ---- two readers: any interleaving = the two separate runs ---- *)
+Theorem two_readers_do_not_interact : forall mktime junk (l : list (who * op)) sa sb xs sa' sb',
+  run_two mktime junk sa sb l = Ok (xs, (sa', sb')) ->
+  P_ReaderIndep.run_ops mktime junk sa (proj true l) = Ok (proj true xs, sa') /\
+  P_ReaderIndep.run_ops mktime junk sb (proj false l) = Ok (proj false xs, sb').
+Proof. exact two_readers_independent. Qed.
+
 Print Assumptions end_is_absorbing_next.
 Print Assumptions end_is_absorbing_ops.
 Print Assumptions no_decode_outside_members.
+Print Assumptions read_then_skip_is_skip.
+Print Assumptions header_read_respects_equiv.
+Print Assumptions next_header_independent_of_reads.
+Print Assumptions next_entry_independent_of_decoding.
+Print Assumptions end_is_absorbing.
+Print Assumptions plain_policy_never_represents.
+Print Assumptions deferred_links_longest_first.
+Print Assumptions end_of_archive_drain.
+Print Assumptions two_readers_do_not_interact.
